@@ -634,7 +634,7 @@ func (w *World) count(store string, row *Row, sym string, sub *SubQ) int {
 		if info.KidOnly && !HashKid(id) {
 			continue // not a member of the child store the set is typed to
 		}
-		if tr != nil && w.Eval(sub.Q.Pred, info.Target, tr) {
+		if tr != nil && (sub.Q.Pred == nil || w.Eval(sub.Q.Pred, info.Target, tr)) {
 			match = append(match, id)
 		}
 	}
